@@ -5,9 +5,11 @@ from fractions import Fraction
 
 warnings.simplefilter("ignore")
 from unified_planning.exceptions import UPTypeError
-from unified_planning.model import Problem
+from unified_planning.model import Problem, FreeVarsOracle
 from unified_planning.model.operators import OperatorKind
-from unified_planning.model.walkers import ExpressionQuantifiersRemover
+from unified_planning.model.walkers import (ExpressionQuantifiersRemover, FluentsSubstituter, FreeVarsExtractor,
+                                            InterpretedFunctionsExtractor, LinearChecker, NamesExtractor,
+                                            OperatorsExtractor, QuantifierSimplifier, Simplifier, Substituter, TypeChecker)
 from unified_planning.model.walkers.dag import DagWalker
 from unified_planning.model.walkers.state_evaluator import StateEvaluator
 from unified_planning.model.state import UPState
@@ -19,18 +21,27 @@ from upx import Ctx, ExprGen, enc_expr, enc_ty
 ID = "C14"
 GEN = []
 CORR_NAME = "history-answers-and-walker-state"
-RULE = ("one case = a HISTORY of calls on ONE real Environment (10 calls quick / 40 thorough) over a pool of 4-7 typed "
-        "expressions that are reused, nested and combined (so cache entries of one call are hit by later ones): "
-        "FNode.substitute with 1-3 pairs (fluent applications, parameters, free and bound variables, compound keys; ~10% "
-        "an incompatible pair), env.free_vars_oracle, env.free_vars_extractor, two probe subclasses of the real DagWalker "
-        "(one-time cache with keyword arguments ignored by the key, like the Substituter; persistent cache), and — checked by "
-        "the oracle only — simplify (incl. interpreted functions), substitute-then-simplify, .type, raw node construction "
-        "(incl. ill-typed, requested twice), ExpressionQuantifiersRemover and one StateEvaluator (states with a missing fluent "
-        "value). About a quarter of the calls are made to fail "
-        "mid-walk: a planted `K / dz` site with `dz -> 0` in the map (the type check of the rebuilt node divides by zero), a "
-        "probe node function raising on a listed node, an interpreted function with no table entry, `0*x / 0` in the "
-        "simplifier, an ill-typed construction. Non-trivial = some modelled call raised mid-walk and a later call uses the "
-        "same walker.")
+RULE = ("one case = a HISTORY of operations on ONE real Environment with two Problems built in it (10 base operations quick / 40 "
+        "thorough, plus a context scenario in ~60% of the histories) over a pool of 4-7 typed expressions that are reused, nested "
+        "and combined (so cache entries of one call are hit by later ones). Calls: FNode.substitute with 1-3 pairs (fluent "
+        "applications, parameters, free and bound variables, compound keys; ~10% an incompatible pair; half of the calls pass the "
+        "SAME dict object with new content), env.free_vars_oracle, env.free_vars_extractor, two probe subclasses of the real "
+        "DagWalker (one-time cache with keyword arguments ignored by the key, like the Substituter; persistent cache), ONE "
+        "long-lived ExpressionQuantifiersRemover handed problem 0 or 1 — all followed by the model — and, checked by the oracle "
+        "only: simplify (incl. interpreted functions), substitute-then-simplify, .type, raw node construction (incl. ill-typed, "
+        "requested twice), one StateEvaluator and one QuantifierSimplifier per problem (states with a missing fluent value), one "
+        "FluentsSubstituter built on a dict, get_contained_names / OperatorsExtractor / interpreted_functions_extractor / "
+        "LinearChecker (the caller MUTATES every container it gets back and asks again for the same or a bigger expression). "
+        "MUTATIONS made by the caller between two calls: add_object to a problem (a type already quantified over by an earlier "
+        "call on that problem, a subtype, a supertype, an unrelated type, a type that had no object), add_fluent, insert/delete "
+        "an entry of the FluentsSubstituter's dict. The context scenario is: call(p, e) [call(1-p, e)] — add_object(p, related "
+        "type) [one more mutation] — call(p, e or another expression over the same type) [call(1-p, …)] [call(p, e)] on one "
+        "long-lived walker (remover 50%, StateEvaluator, QuantifierSimplifier, FluentsSubstituter), interleaved with the other "
+        "operations. About a quarter of the calls are made to fail mid-walk: a planted `K / dz` site with `dz -> 0` in the map "
+        "(the type check of the rebuilt node divides by zero), a probe node function raising on a listed node, an interpreted "
+        "function with no table entry, `0*x / 0` in the simplifier, an ill-typed construction. Non-trivial = some modelled call "
+        "raised mid-walk and a later call uses the same walker, OR a walker is called again with a context object that the "
+        "caller changed since that walker's previous call on it (tags ctx:* in the measured distribution).")
 ASSUMPTIONS = [
     "which node constructions the expression manager refuses, and which (key, value) pairs are type-compatible, is C15's "
     "subject: both are MEASURED on a fresh environment when the case is generated and handed to the model as the values of "
@@ -42,16 +53,33 @@ ASSUMPTIONS = [
     "quantifier variable lists of simplified expressions come out of a Python set and are sorted before comparison",
     "the Substituter instance mirrors substituter.py WITH notes/patches/C13-substituter-top-down.patch applied (a node that "
     "is a key is replaced before its children are visited); the generic machine and everything else is independent of it",
+    "a call's ARGUMENTS are the expression and the objects passed, with the content they have when the call is made: "
+    "mutating a Problem (or a dict) between two calls changes the argument of the later call, it is not an 'earlier call'. "
+    "The oracle therefore replays the caller's own mutations — and nothing else — on the fresh environment",
+    "Simplifier(env, problem) and LinearChecker(problem) snapshot problem.get_static_fluents() at construction and keep "
+    "their cache; their docstrings declare the behaviour undefined once the problem is modified, so histories never mutate "
+    "a problem such a walker was built on (Props/C14Ctx.lean `keptCtx_*`: no walker that keeps its cache can read a mutable "
+    "context). UsertypeFluentsWalker hands out fresh names by design and is not a walker of the property",
+    "the caller owns what a call returns: mutating a returned set is legitimate and must not influence later answers "
+    "(needs notes/patches/C14-extractors-return-copies.patch; without it get_contained_names hands out its cache entry)",
 ]
 MODELLED = [
     "modelled by hand (tied by correspondence): DagWalker.walk/iter_walk/_process_stack/_push_with_children_to_stack/"
     "_compute_node_result/_get_key, invalidate_memoization; Substituter (_get_key, quantifier override, substitute, "
     "walk_replace_or_identity) over IdentityDagWalker and the manager's And/Or/Not/Plus/Times collapses; FreeVarsOracle; "
-    "FreeVarsExtractor; ExpressionManager.create_node's register/type-check order",
-    "the Substituter's nested walkers (a new Substituter per quantifier body, env.free_vars_oracle for the keys) are "
-    "modelled by their pure functions — justified by C14_result for a fresh, hence clean, walker",
-    "not modelled, covered by the fresh-environment oracle only: Simplifier, TypeChecker, ExpressionQuantifiersRemover "
-    "node functions (they are instances of the generic machine for which the theorems are proved)",
+    "FreeVarsExtractor; ExpressionManager.create_node's register/type-check order; ExpressionQuantifiersRemover "
+    "(remove_quantifiers' field assignment, _help_walk_quantifiers, walk_exists/walk_forall) over ObjectsSetMixin.objects / "
+    "add_object of two problems",
+    "the Substituter's nested walkers (a new Substituter per quantifier body, env.free_vars_oracle for the keys) and the "
+    "substitute() calls made by the remover's node functions on the environment's shared Substituter are modelled by their "
+    "pure functions — justified by C14_result / C14_step for a clean walker (the shared Substituter's stack and cache sizes "
+    "after every remover call are part of the compared answer)",
+    "not modelled, covered by the two oracles (fresh environment with the mutations replayed; brand-new instance on the "
+    "same live arguments) only: Simplifier, TypeChecker, QuantifierSimplifier, StateEvaluator, FluentsSubstituter, "
+    "NamesExtractor, OperatorsExtractor, InterpretedFunctionsExtractor, LinearChecker node functions (instances of the generic "
+    "machine / of the entry-method theorem C14_ctx_history_independent, whose hypothesis `Resets` is not proved for them)",
+    "results are immutable values in the model; that a caller cannot reach a walker's cache through a returned container is "
+    "checked on the real code only (every returned set is mutated by the harness)",
     "Python dict/list semantics, FNode identity as structural equality (C16)",
 ]
 BUDGET_S = {"quick": 60, "thorough": 420}
@@ -120,47 +148,168 @@ class ProbeKeep(DagWalker):
 # one side (shared or fresh) of a history
 # ---------------------------------------------------------------------------------------------------
 
+DEFAULT_WORLD = [[list(o) for o in ExprGen.OBJECTS]]          # cases written before the world was part of the payload
+FMAP_PAIRS = [(["b0", "bool", []], ["b1", "bool", []]), (["b1", "bool", []], ["b2", "bool", []]),
+              (["x", INT, []], ["y", INT, []]), (["z", REAL, []], ["zb", ["real", "0", "7/2"], []])]
+SENTINEL = "c14-sentinel"
+
+
+def world_sexp(problems):
+    return ["world", ["types"] + [[n, f if f else "_"] for n, f in ExprGen.TYPES]] + \
+           [["pb"] + [[n, t] for n, t in objs] for objs in problems]
+
+
+def world_of(payload):
+    if len(payload) > 4:
+        return [[(o[0], o[1]) for o in pb[1:]] for pb in payload[4][2:]]
+    return [[(n, t) for n, t in pb] for pb in DEFAULT_WORLD]
+
+
+def _is_sub(t, u):
+    fathers = dict(ExprGen.TYPES)
+    while t is not None:
+        if t == u:
+            return True
+        t = fathers.get(t)
+    return False
+
+
 class Side:
-    def __init__(self, keep_salt, keep_bad):
+    """one real Environment, the problems built in it, and the LONG-LIVED walker instances of the history"""
+
+    def __init__(self, keep_salt, keep_bad, world):
         self.ctx = Ctx(types=ExprGen.TYPES)
         self.ctx.fun_tables = {"g": dict(G_TABLE), "gb": dict(GB_TABLE)}
         self.env = self.ctx.env
-        self.pinv = ProbeInv()
-        self._keep = (keep_salt, keep_bad)
-        self._pkeep = None
-        self._problem = None
-        self._qrm = None
-        self._se = None
+        self.keep = (keep_salt, keep_bad)
+        self.world = [list(objs) for objs in world]     # current objects of every problem, insertion order
+        self.extra_fluents = [[] for _ in world]
+        self._problems = None
+        self.inst = {}                                   # the long-lived walker objects
+        self.subs_dict = {}                              # ONE dict object reused by substitute calls
+        self.fmap = {}                                   # the dict a FluentsSubstituter was built with
+        self.twin_fail = []
 
-    def pkeep(self):
-        if self._pkeep is None:
-            self._pkeep = ProbeKeep(self._keep[0], [self.ctx.expr(b) for b in self._keep[1]])
-        return self._pkeep
+    def pb(self, p):
+        if self._problems is None:
+            self._problems = []
+            for i, objs in enumerate(self.world):
+                pr = Problem(f"c14_{i}", self.env)
+                for n, t in objs:
+                    pr.add_object(self.ctx.obj(n, t))
+                for fn in self.extra_fluents[i]:
+                    pr.add_fluent(self.ctx.fluent([fn, "bool", []]), default_initial_value=False)
+                self._problems.append(pr)
+        return self._problems[p]
 
-    def qrm(self):
-        if self._qrm is None:
-            self._problem = Problem("c14", self.env)
-            for n, t in ExprGen.OBJECTS:
-                self._problem.add_object(self.ctx.obj(n, t))
-            self._qrm = ExpressionQuantifiersRemover(self.env)
-        return self._qrm, self._problem
+    def mutate(self, m):
+        """the CALLER changes an object that some long-lived walker was handed (or will be handed again)"""
+        what = m[1]
+        if what == "obj":
+            p, n, t = int(m[2]), m[3], m[4]
+            self.world[p].append((n, t))
+            if self._problems is not None:
+                self._problems[p].add_object(self.ctx.obj(n, t))
+        elif what == "fluent":
+            p, n = int(m[2]), m[3]
+            self.extra_fluents[p].append(n)
+            if self._problems is not None:
+                self._problems[p].add_fluent(self.ctx.fluent([n, "bool", []]), default_initial_value=False)
+        elif what == "fmap":
+            k, v = FMAP_PAIRS[int(m[2])]
+            fk, fv = self.ctx.fluent(k), self.ctx.fluent(v)
+            if fk in self.fmap:
+                del self.fmap[fk]
+            else:
+                self.fmap[fk] = fv
+        else:
+            raise ValueError(f"unknown mutation {m}")
 
+    def ground_fluents(self, p):
+        """every ground application of a signature fluent over the CURRENT objects of problem p"""
+        out = []
+        for ref in _SIG.bool_fl + _SIG.int_fl + _SIG.real_fl + _SIG.obj_fl + [DZ[1]]:
+            if not ref[2]:
+                out.append(["fl", ref])
+            else:
+                for n, t in self.world[p]:
+                    if _is_sub(t, ref[2][0][1]):
+                        out.append(["fl", ref, ["o", n, t]])
+        return out
 
-    def evaluator(self):
-        if self._se is None:
-            _, pb = self.qrm()
-            self._se = StateEvaluator(pb)
-        return self._se
-
-    def state(self, seed, dropped):
-        """a state giving every ground fluent of the signature a value drawn from `seed`, except `dropped`"""
+    def assignments(self, p, seed, dropped):
         r = random.Random(int(seed))
         vals = {}
-        for fe in GROUND_FLUENTS:
+        for fe in self.ground_fluents(p):
             v = value_for(r, fe[1][1], const=True)
             if fe not in dropped:
                 vals[self.ctx.expr(fe)] = self.ctx.expr(v)
-        return UPState(vals, self.qrm()[1])
+        return vals
+
+    def state(self, p, seed, dropped):
+        """a state giving every ground fluent of the signature a value drawn from `seed`, except `dropped`"""
+        return UPState(self.assignments(p, seed, dropped), self.pb(p))
+
+
+class Walkers:
+    """where a call finds its walker: the long-lived instances of the side / the singletons of its Environment
+    (fresh=False), or a BRAND-NEW instance of the same class for every request (fresh=True: the fresh-instance
+    comparison — same Environment, same live arguments, a walker that has no past)"""
+
+    def __init__(self, side, fresh):
+        self.side, self.fresh, self.env = side, fresh, side.env
+
+    def _get(self, key, make):
+        if self.fresh:
+            return make()
+        if key not in self.side.inst:
+            self.side.inst[key] = make()
+        return self.side.inst[key]
+
+    def substituter(self):
+        return Substituter(self.env) if self.fresh else self.env.substituter
+
+    def simplifier(self):
+        return Simplifier(self.env) if self.fresh else self.env.simplifier
+
+    def type_checker(self):
+        return TypeChecker(self.env) if self.fresh else self.env.type_checker
+
+    def fvo(self):
+        return FreeVarsOracle() if self.fresh else self.env.free_vars_oracle
+
+    def fve(self):
+        return FreeVarsExtractor() if self.fresh else self.env.free_vars_extractor
+
+    def names(self):
+        return NamesExtractor() if self.fresh else self.env.names_extractor
+
+    def ifuns(self):
+        return InterpretedFunctionsExtractor() if self.fresh else self.env.interpreted_functions_extractor
+
+    def ops(self):
+        return self._get("ops", OperatorsExtractor)
+
+    def lin(self):
+        return self._get("lin", lambda: LinearChecker(None, self.env))
+
+    def pinv(self):
+        return self._get("pinv", ProbeInv)
+
+    def pkeep(self):
+        return self._get("pkeep", lambda: ProbeKeep(self.side.keep[0], [self.side.ctx.expr(b) for b in self.side.keep[1]]))
+
+    def qrm(self):
+        return self._get("qrm", lambda: ExpressionQuantifiersRemover(self.env))
+
+    def evaluator(self, p):
+        return self._get(("se", p), lambda: StateEvaluator(self.side.pb(p)))
+
+    def qsimp(self, p):
+        return self._get(("qs", p), lambda: QuantifierSimplifier(self.env, self.side.pb(p)))
+
+    def fsub(self):
+        return self._get("fsub", lambda: FluentsSubstituter(self.side.fmap, self.env))
 
 
 def _raised(e):
@@ -171,47 +320,58 @@ def _set_out(tag, items):
     return [tag] + sorted(items, key=sexp.dumps)
 
 
-def run_call(side, call):
-    """-> (result, state) ; result carries the exception class; state = observable walker state or None"""
+def _st(w, memo=True):
+    return ["st", str(len(w.stack))] + ([str(len(w.memoization))] if memo else [])
+
+
+def run_call(side, call, W=None):
+    """-> (result, states) ; result carries the exception class; states = list of observable walker states
+    (modelled calls) or None.  W says where the walkers come from (default: the side's long-lived ones)."""
     ctx, env = side.ctx, side.env
+    W = W or Walkers(side, False)
     kind = call[0]
     try:
+        if kind == "mut":
+            side.mutate(call)
+            return "mutated", None
         if kind == "subst":
-            w = env.substituter
+            w = W.substituter()
             e = ctx.expr(call[1])
-            subs = {}
+            # an odd number of pairs: the SAME dict object as earlier calls, with new content
+            subs = side.subs_dict if len(call[2]) % 2 == 1 else {}
+            subs.clear()
             for k, v, _ in call[2]:
                 subs[ctx.expr(k)] = ctx.expr(v)
             try:
-                res = ["ok", enc_expr(e.substitute(subs))]
+                res = ["ok", enc_expr(w.substitute(e, subs) if W.fresh else e.substitute(subs))]
             except UPTypeError as ex:
                 res = "incompatible" if str(ex).startswith("The expression type of") else _raised(ex)
             except Exception as ex:
                 res = _raised(ex)
-            return res, ["st", str(len(w.stack)), str(len(w.memoization))]
+            return res, [_st(w)]
         if kind == "fv":
-            w = env.free_vars_oracle
+            w = W.fvo()
             e = ctx.expr(call[1])
             try:
                 res = _set_out("vars", [[v.name, enc_ty(v.type)] for v in w.get_free_variables(e)])
             except Exception as ex:
                 res = _raised(ex)
-            return res, ["st", str(len(w.stack))]
+            return res, [_st(w, False)]
         if kind == "fl":
-            w = env.free_vars_extractor
+            w = W.fve()
             e = ctx.expr(call[1])
             try:
                 res = _set_out("exprs", [enc_expr(x) for x in w.get(e)])
             except Exception as ex:
                 res = _raised(ex)
-            return res, ["st", str(len(w.stack))]
+            return res, [_st(w, False)]
         if kind in ("pinv", "pkeep"):
             if kind == "pinv":
-                w = side.pinv
+                w = W.pinv()
                 e = ctx.expr(call[3])
                 kw = {"salt": int(call[1]), "bad": [ctx.expr(b) for b in call[2]]}
             else:
-                w = side.pkeep()
+                w = W.pkeep()
                 e = ctx.expr(call[1])
                 kw = {}
             try:
@@ -220,25 +380,72 @@ def run_call(side, call):
                 res = ["raised", enc_expr(ex.node)]
             except Exception as ex:
                 res = _raised(ex)
-            return res, ["st", str(len(w.stack)), str(len(w.memoization))]
+            return res, [_st(w)]
+        if kind == "qrm":
+            w = W.qrm()
+            e = ctx.expr(call[2])
+            try:
+                res = ["ok", enc_expr(w.remove_quantifiers(e, side.pb(int(call[1]))))]
+            except Exception as ex:
+                res = _raised(ex)
+            return res, [_st(w), _st(env.substituter)]
         assert kind == "other"
         what = call[1]
         if what == "simplify":
-            return ["ok", enc_expr(ctx.expr(call[2]).simplify(), True)], None
+            e = ctx.expr(call[2])
+            return ["ok", enc_expr(W.simplifier().simplify(e) if W.fresh else e.simplify(), True)], None
         if what == "subsimp":
             e = ctx.expr(call[2])
             subs = {ctx.expr(k): ctx.expr(v) for k, v, _ in call[3]}
+            if W.fresh:
+                return ["ok", enc_expr(W.simplifier().simplify(W.substituter().substitute(e, subs)), True)], None
             return ["ok", enc_expr(e.substitute(subs).simplify(), True)], None
         if what == "type":
-            return ["ok", enc_ty(ctx.expr(call[2]).type)], None
+            e = ctx.expr(call[2])
+            return ["ok", enc_ty(W.type_checker().get_type(e) if W.fresh else e.type)], None
         if what == "mk":
             return ["ok", enc_expr(ctx.expr(call[2]))], None
         if what == "eval":
-            se = side.evaluator()
-            return ["ok", enc_expr(se.evaluate(ctx.expr(call[2]), side.state(call[3], call[4])))], None
-        if what == "qrm":
-            q, pb = side.qrm()
-            return ["ok", enc_expr(q.remove_quantifiers(ctx.expr(call[2]), pb))], None
+            p = int(call[5]) if len(call) > 5 else 0
+            se = W.evaluator(p)
+            return ["ok", enc_expr(se.evaluate(ctx.expr(call[2]), side.state(p, call[3], call[4])))], None
+        if what == "qsimp":
+            p = int(call[4])
+            qs = W.qsimp(p)
+            return ["ok", enc_expr(qs.qsimplify(ctx.expr(call[2]), side.assignments(p, call[3], []), {}), True)], None
+        if what == "qrm":      # cases written before `qrm` became a modelled call
+            return ["ok", enc_expr(W.qrm().remove_quantifiers(ctx.expr(call[2]), side.pb(0)))], None
+        if what == "fsub":
+            return ["ok", enc_expr(W.fsub().substitute_fluents(ctx.expr(call[2])))], None
+        # extractors: whatever mutable container comes back is MUTATED by the caller afterwards (a caller owns its
+        # result; a walker that hands out its cache entry would answer the next call with the caller's additions)
+        if what == "names":
+            e = ctx.expr(call[2])
+            got = W.names().extract_names(e) if W.fresh else e.get_contained_names()
+            res = _set_out("names", list(got))
+            if isinstance(got, set):
+                got.add(SENTINEL)
+            return res, None
+        if what == "ops":
+            got = W.ops().get(ctx.expr(call[2]))
+            res = _set_out("ops", [k.name for k in got])
+            if isinstance(got, set):
+                got.add(OperatorKind.SOMETIME_AFTER)
+            return res, None
+        if what == "ifuns":
+            got = W.ifuns().get(ctx.expr(call[2]))
+            res = _set_out("exprs", [enc_expr(x) for x in got])
+            if isinstance(got, set):
+                got.add(SENTINEL)
+            return res, None
+        if what == "lin":
+            lin, pos, neg = W.lin().get_fluents(ctx.expr(call[2]))
+            res = ["lin", "T" if lin else "F", _set_out("pos", [enc_expr(x) for x in pos]),
+                   _set_out("neg", [enc_expr(x) for x in neg])]
+            for got in (pos, neg):
+                if isinstance(got, set):
+                    got.add(ctx.expr(["fl", ["b0", "bool", []]]))
+            return res, None
         raise ValueError(f"unknown call {call}")
     except Exception as ex:   # construction of the arguments, or an `other` call, raised
         return _raised(ex), None
@@ -249,15 +456,35 @@ def parts(payload):
     return payload[1][1:], int(payload[2][1]), payload[2][2], payload[3][1:]
 
 
-def run_history(payload):
+def has_twin(c):
+    """calls answered by a walker object (everything but mutations and raw node construction)"""
+    return c[0] != "mut" and c[:2] != ["other", "mk"]
+
+
+def run_history(payload, twin=False):
+    """the history on ONE side.  twin=True: after every call the same call is also put, with the same live
+    arguments, to a brand-new walker instance of the same class; mismatches are collected in `side.twin_fail`"""
     _, ks, kb, calls = parts(payload)
-    side = Side(ks, kb)
-    return [run_call(side, c) for c in calls]
+    side = Side(ks, kb, world_of(payload))
+    out = []
+    for i, c in enumerate(calls):
+        r = run_call(side, c)
+        out.append(r)
+        if twin and has_twin(c):
+            r2 = run_call(side, c, Walkers(side, True))
+            if r2[0] != r[0]:
+                side.twin_fail.append((i, c, r[0], r2[0]))
+    return (out, side) if twin else out
 
 
 def run_fresh(payload, i):
+    """call i on a FRESH environment in which the caller's mutations up to i (and nothing else) were made"""
     _, ks, kb, calls = parts(payload)
-    return run_call(Side(ks, kb), calls[i])
+    side = Side(ks, kb, world_of(payload))
+    for c in calls[:i]:
+        if c[0] == "mut":
+            side.mutate(c)
+    return run_call(side, calls[i])
 
 
 # ---------------------------------------------------------------------------------------------------
@@ -277,9 +504,14 @@ def _for_model(res):
 def impl(payload):
     out, outcomes = [], []
     _, _, _, calls = parts(payload)
-    for c, (res, st) in zip(calls, run_history(payload)):
+    for c, (res, sts) in zip(calls, run_history(payload)):
         outcomes.append(res)
-        out.append("unmodelled" if c[0] == "other" else [_for_model(res), st if st is not None else "no-state"])
+        if c[0] == "other":
+            out.append("unmodelled")
+        elif c[0] == "mut":
+            out.append(_for_model(res))
+        else:
+            out.append([_for_model(res)] + (sts if sts is not None else ["no-state"]))
     _OUTCOMES[sexp.dumps(payload)] = outcomes
     if len(_OUTCOMES) > 4:
         _OUTCOMES.pop(next(iter(_OUTCOMES)))
@@ -302,11 +534,61 @@ def compare(model_ans, impl_ans):
 
 
 def _walker_of(c):
-    return c[0] if c[0] != "other" else None
+    return c[0] if c[0] not in ("other", "mut") else None
 
 
 def _mid_walk_failure(c, a):
-    return c[0] != "other" and isinstance(a, list) and (a[0] == "raised" or (isinstance(a[0], list) and a[0][:1] == ["raised"]))
+    return c[0] not in ("other", "mut") and isinstance(a, list) and (a[0] == "raised" or (isinstance(a[0], list) and a[0][:1] == ["raised"]))
+
+
+def ctx_key(c):
+    """(walker object, context object) of a call whose arguments include a mutable context, else None"""
+    if c[0] == "qrm":
+        return ("qrm", "pb" + c[1])
+    if c[:2] == ["other", "qrm"]:
+        return ("qrm", "pb0")
+    if c[:2] == ["other", "eval"]:
+        return ("se" + (c[5] if len(c) > 5 else "0"), "pb" + (c[5] if len(c) > 5 else "0"))
+    if c[:2] == ["other", "qsimp"]:
+        return ("qs" + c[4], "pb" + c[4])
+    if c[:2] == ["other", "fsub"]:
+        return ("fsub", "fmap")
+    return None
+
+
+def mut_target(c):
+    if c[0] != "mut":
+        return None
+    return "fmap" if c[1] == "fmap" else "pb" + c[2]
+
+
+def ctx_shapes(calls):
+    """which context shapes a history exercises (tags)"""
+    tags = set()
+    called, dirty, last = {}, {}, {}
+    for c in calls:
+        t = mut_target(c)
+        if t is not None:
+            for w in called:
+                if t in called[w]:
+                    dirty[w].add(t)
+            continue
+        k = ctx_key(c)
+        if k is None:
+            continue
+        w, cx = k
+        called.setdefault(w, set())
+        dirty.setdefault(w, set())
+        if cx in dirty[w]:
+            tags.add("ctx:mutated-between-calls")          # same walker, same context object, changed in between
+            if w == "qrm":
+                tags.add("ctx:qrm-mutated-between-calls")
+            dirty[w].discard(cx)
+        if cx in called[w] and last[w] != cx:
+            tags.add("ctx:problems-alternating")            # A, B, A on one walker
+        called[w].add(cx)
+        last[w] = cx
+    return sorted(tags)
 
 
 def nontrivial(payload, ans):
@@ -314,7 +596,7 @@ def nontrivial(payload, ans):
     for i, (c, a) in enumerate(zip(calls, ans)):
         if _mid_walk_failure(c, a) and any(_walker_of(d) == c[0] for d in calls[i + 1:]):
             return True
-    return False
+    return "ctx:mutated-between-calls" in ctx_shapes(calls)
 
 
 def stats(payload, ans):
@@ -322,7 +604,7 @@ def stats(payload, ans):
     outcomes = _OUTCOMES.get(sexp.dumps(payload)) or [None] * len(calls)
     tags = []
     for c, r in zip(calls, outcomes):
-        k = c[0] if c[0] != "other" else "other-" + c[1]
+        k = c[0] if c[0] not in ("other", "mut") else c[0] + "-" + c[1]
         if r == "incompatible":
             o = "incompatible"
         elif isinstance(r, list) and r and r[0] == "raised":
@@ -330,35 +612,53 @@ def stats(payload, ans):
         else:
             o = "ok"
         tags.append(f"{k}:{o}")
+    failed = any(_mid_walk_failure(c, a) and any(_walker_of(d) == c[0] for d in calls[i + 1:])
+                 for i, (c, a) in enumerate(zip(calls, ans)))
+    tags.append("history:failure-then-reuse" if failed else "history:no-failure-then-reuse")
+    shapes = ctx_shapes(calls)
+    tags += shapes if shapes else ["ctx:none"]
     tags.append("history:nontrivial" if nontrivial(payload, ans) else "history:trivial")
     return tags
 
 
 def oracle(payload):
-    """The property itself on the real code: every call of the history, made on the shared environment,
-    must answer exactly what the same call answers on a fresh environment."""
+    """The property itself on the real code.  Every call of the history, made on the shared environment with its
+    long-lived walkers, must answer exactly
+      (1) what the same call answers on a FRESH environment in which only the caller's own mutations of the
+          arguments (objects / fluents added to the problems, entries of the fluents map) were replayed, and
+      (2) what a BRAND-NEW walker instance answers to it on the shared environment, given the same live arguments."""
     _, _, _, calls = parts(payload)
     shared = run_history(payload)
     for i, (c, (res, _)) in enumerate(zip(calls, shared)):
+        if c[0] == "mut":
+            if res != "mutated":
+                return f"mutation {i} {sexp.dumps(c)} failed: {sexp.dumps(res)}"
+            continue
         fres, _ = run_fresh(payload, i)
         if res != fres:
             k = c[0] if c[0] != "other" else c[1]
             return (f"call {i} ({k}) answered {sexp.dumps(res)[:300]} on the shared environment but "
                     f"{sexp.dumps(fres)[:300]} on a fresh one")
+    _, side = run_history(payload, twin=True)
+    if side.twin_fail:
+        i, c, r, r2 = side.twin_fail[0]
+        k = c[0] if c[0] != "other" else c[1]
+        return (f"call {i} ({k}) answered {sexp.dumps(r)[:300]} on the long-lived walker but a brand-new instance "
+                f"given the same arguments answers {sexp.dumps(r2)[:300]}")
     return None
 
 
 def shrink(payload):
     rej, ks, kb, calls = parts(payload)
-    head = payload[:3]
+    head, tail = payload[:3], payload[4:]
     for i in range(len(calls)):
-        yield head + [["calls"] + calls[:i] + calls[i + 1:]]
+        yield head + [["calls"] + calls[:i] + calls[i + 1:]] + tail
     for i, c in enumerate(calls):   # smaller maps
         j = 2 if c[0] == "subst" else 3 if c[:2] == ["other", "subsimp"] else None
         if j is not None and len(c[j]) > 1:
             for d in range(len(c[j])):
                 nc = c[:j] + [c[j][:d] + c[j][d + 1:]] + c[j + 1:]
-                yield head + [["calls"] + calls[:i] + [nc] + calls[i + 1:]]
+                yield head + [["calls"] + calls[:i] + [nc] + calls[i + 1:]] + tail
 
 
 # ---------------------------------------------------------------------------------------------------
@@ -540,9 +840,124 @@ class HistGen:
         r.shuffle(res)
         return res
 
+    # -- calls whose arguments include a mutable context ----------------------------------------
+    def quantified(self, q, tyn=None):
+        """a ground Boolean expression with (at least) one quantifier over user type `tyn`, body mentioning the variable"""
+        r = self.rng
+        for _ in range(20):
+            q.fresh += 1
+            t = tyn or r.choice(["T", "T", "S", "S", "U", "E"])
+            v = (f"q{q.fresh}", ["user", t])
+            vs, sc = [list(v)], (v,)
+            if r.random() < 0.25:
+                q.fresh += 1
+                v2 = (f"q{q.fresh}", ["user", r.choice(["T", "S", "U"])])
+                vs.append(list(v2))
+                sc = sc + (v2,)
+            body = strip_div(q.boolean(r.choice([0, 1, 1, 2]), sc))
+            if not any(s[0] == "v" and s[1] == v[0] for s in subterms(body)):
+                var = ["v", v[0], v[1]]
+                atom = {"T": r.choice([["fl", ["bq", "bool", [U("T")]], var], ["le", ["fl", ["xq", ["int", "-5", "5"], [U("T")]], var], ["i", "2"]]]),
+                        "S": r.choice([["fl", ["bs", "bool", [U("S")]], var], ["fl", ["bq", "bool", [U("T")]], var],
+                                       ["eq", ["fl", ["own", U("T"), [U("S")]], var], ["o", "t1", "T"]]]),
+                        "U": ["eq", var, ["o", "u1", "U"]], "E": ["eq", var, var]}[t]
+                body = [r.choice(["and", "or"]), atom, body] if r.random() < 0.7 else atom
+            e = [r.choice(["exists", "forall"]), vs, body]
+            k = r.random()
+            if k < 0.15:
+                e = ["not", e]
+            elif k < 0.35:
+                e = [r.choice(["and", "or", "implies"]), e, self.fresh_bool(1, q)]
+            elif k < 0.45:      # nested in another quantifier
+                q.fresh += 1
+                e = [r.choice(["exists", "forall"]), [[f"q{q.fresh}", ["user", r.choice(["T", "S", "U"])]]], e]
+            if builds(e):
+                return e
+        return ["forall", [["q0", ["user", "T"]]], ["fl", ["bq", "bool", [U("T")]], ["v", "q0", ["user", "T"]]]]
+
+    def new_object(self, p, ty):
+        self.n_obj += 1
+        n = f"n{self.n_obj}"
+        self.world_now[p].append((n, ty))
+        return ["mut", "obj", str(p), n, ty]
+
+    def new_fluent(self, p):
+        self.n_fl += 1
+        return ["mut", "fluent", str(p), f"nf{self.n_fl}"]
+
+    def related_type(self, t):
+        """type of an object to add between two calls that quantify over `t`: the type itself, a subtype, a
+        supertype, an unrelated one"""
+        k = self.rng.random()
+        if k < 0.5:
+            return t
+        if k < 0.7:
+            return {"T": "S"}.get(t, t)
+        if k < 0.8:
+            return {"S": "T"}.get(t, t)
+        return self.rng.choice([u for u in ("T", "S", "U", "E") if not _is_sub(u, t) and not _is_sub(t, u)])
+
+    def ctx_call(self, kind, p, e):
+        r = self.rng
+        if kind == "qrm":
+            return ["qrm", str(p), e]
+        if kind == "eval":
+            return ["other", "eval", e, str(r.randint(0, 999)), [], str(p)]
+        return ["other", "qsimp", e, str(r.randint(0, 999)), str(p)]
+
+    def ctx_scenario(self):
+        """call — the caller changes the context object — call again, on ONE long-lived walker; optionally with a
+        second problem passed in between (A, B, A)"""
+        r = self.rng
+        kind = r.choice(["qrm", "qrm", "qrm", "eval", "qsimp", "fsub"])
+        q = ExprGen(r, big=False, quantifiers=True, params=False)
+        if kind == "fsub":
+            e = self.fresh_bool(2)
+            k = r.randrange(len(FMAP_PAIRS))
+            ops = [["other", "fsub", e], ["mut", "fmap", str(k)], ["other", "fsub", e]]
+            if r.random() < 0.5:
+                ops += [["mut", "fmap", str(r.randrange(len(FMAP_PAIRS)))], ["other", "fsub", r.choice([e, self.fresh_bool(1)])]]
+            return ops
+        p = r.randrange(2)
+        alt = r.random() < 0.4
+        e = self.quantified(q)
+        tys = [s for s in subterms(e) if s[0] in ("exists", "forall")]
+        t0 = r.choice(tys)[1][0][1][1]
+        ty_new = self.related_type(t0)
+        mut = self.new_object(p, ty_new)
+        if _is_sub(ty_new, t0) and r.random() < (0.3 if kind == "qrm" else 0.8):
+            # a conjunct whose VALUE changes when the object is added: "some object of type t0 is the new one"
+            q.fresh += 1
+            var = ["v", f"q{q.fresh}", ["user", t0]]
+            sens = ["exists", [var[1:]], ["eq", var, ["o", mut[3], ty_new]]]
+            e = [r.choice(["iff", "iff", "and", "or"]), e, sens]
+        ops = [self.ctx_call(kind, p, e)]
+        if alt:
+            ops.append(self.ctx_call(kind, 1 - p, e))
+        ops.append(mut)
+        j = r.random()
+        if j < 0.2:
+            ops.append(self.new_fluent(p))
+        elif j < 0.4:
+            ops.append(self.new_object(1 - p, self.related_type(t0)))
+        elif j < 0.5:
+            ops.append(self.new_object(p, t0))
+        e2 = e if r.random() < 0.6 else self.quantified(q, t0)      # the same request, or another one over the same type
+        ops.append(self.ctx_call(kind, p, e2))
+        if alt:
+            ops.append(self.ctx_call(kind, 1 - p, e2 if r.random() < 0.5 else e))
+        if r.random() < 0.3:
+            ops.append(self.ctx_call(kind, p, e))
+        return ops
+
     def history(self):
         r = self.rng
         pool = [self.fresh_bool(r.choice([1, 2, 2, 3])) for _ in range(r.randint(4, 7))]
+        # the problems of the environment: problem 0 has the signature's objects, problem 1 a random part of them
+        world0 = [[tuple(o) for o in ExprGen.OBJECTS], [tuple(o) for o in ExprGen.OBJECTS if r.random() < 0.5]]
+        self.world_now = [list(w) for w in world0]
+        self.n_obj = self.n_fl = 0
+        plan = self.ctx_scenario() if r.random() < 0.6 else []
 
         def pick():
             k = r.random()
@@ -568,11 +983,14 @@ class HistGen:
             keep_bad = [r.choice(subterms(r.choice(pool)))]
         keep_salt = r.randint(0, 50)
         calls, ill, repeat = [], [], []
-        while len(calls) < self.n:
+        while len(calls) < self.n or plan:
+            if plan and (r.random() < 0.45 or len(calls) >= self.n):
+                calls.append(plan.pop(0))        # the context scenario, in order, interleaved with everything else
+                continue
             if repeat and r.random() < 0.5:      # the same (possibly ill-typed) request once more
                 calls.append(["other", "mk", repeat.pop()])
                 continue
-            k = r.random()
+            k = r.random() * 1.12
             if k < 0.30:      # substitution that succeeds (unless the map is incompatible)
                 e = r.choice(planted_pool) if planted_pool and r.random() < 0.35 else pick_bool()
                 ps = self.pairs(e, r.randint(1, 3), incompatible=r.random() < 0.12)
@@ -634,13 +1052,33 @@ class HistGen:
                         dropped = [r.choice(fls)] if fls and r.random() < 0.4 else []   # a missing fluent value
                         calls.append(["other", "eval", e, str(r.randint(0, 999)), dropped])
                         break
-            else:
+            elif k < 1.0:
                 q = ExprGen(r, big=False, quantifiers=True, params=False)
-                for _ in range(10):
-                    e = strip_div(q.boolean(2))
-                    if any(s[0] in ("exists", "forall") for s in subterms(e)) and builds(e):
-                        calls.append(["other", "qrm", e])
-                        break
+                calls.append(["qrm", str(r.randrange(2)), self.quantified(q)])
+            elif k < 1.03:    # the caller changes a problem at an arbitrary moment
+                p = r.randrange(2)
+                calls.append(self.new_object(p, r.choice(["T", "S", "U", "E"])) if r.random() < 0.8 else self.new_fluent(p))
+            elif k < 1.05:
+                q = ExprGen(r, big=False, quantifiers=True, params=False)
+                calls.append(self.ctx_call(r.choice(["eval", "qsimp"]), r.randrange(2), self.quantified(q)))
+            elif k < 1.07:
+                calls.append(r.choice([["other", "fsub", pick_bool()], ["mut", "fmap", str(r.randrange(len(FMAP_PAIRS)))]]))
+            else:             # extractors; the caller mutates what it got back, and asks again (the same or a bigger expression)
+                j = r.random()
+                if j < 0.45:
+                    what, e = "names", pick_bool()
+                elif j < 0.7:
+                    what, e = "ops", pick_bool()
+                elif j < 0.85:
+                    what, e = "ifuns", (self.fresh_bool(2, self.gi, keep_div=True) if r.random() < 0.6 else pick_bool())
+                else:
+                    nums = [s for s in subterms(pick_bool()) if s[0] in ("plus", "minus", "times", "fl", "i")
+                            and (s[0] != "fl" or s[1][1] != "bool")]
+                    what, e = "lin", (r.choice(nums) if nums else ["fl", ["x", INT, []]])
+                calls.append(["other", what, e])
+                if r.random() < 0.7:
+                    e2 = e if what == "lin" or r.random() < 0.5 else [r.choice(["and", "or"]), e, pick_bool()]
+                    plan.append(["other", what, e2])
         # which rebuilt nodes does the manager refuse?  candidates: every planted site with its
         # divisor (and possibly its dividend) replaced as some map of the history would
         cands = []
@@ -656,7 +1094,7 @@ class HistGen:
                 if n not in cands:
                     cands.append(n)
         reject = [n for n in cands if not builds(n)]
-        return ["hist", ["reject"] + reject, ["keep", str(keep_salt), keep_bad], ["calls"] + calls]
+        return ["hist", ["reject"] + reject, ["keep", str(keep_salt), keep_bad], ["calls"] + calls, world_sexp(world0)]
 
 
 def cases(rng, tier):
@@ -665,6 +1103,8 @@ def cases(rng, tier):
         yield HistGen(rng, n_calls).history()
 
 
+EXTRA_PROPS = ["UPVerif.Props.C14Ctx"]
+
 MANIFEST = {
     "level_text": ("Lean 4 theorems (Props/C14.lean) about an executable model of dag.py's stack-and-cache machine with the "
                    "repaired walk(): for EVERY node function (may raise), both cache policies, every expression and every history "
@@ -672,12 +1112,18 @@ MANIFEST = {
                    "never a KeyError, 2*size pops suffice) and leaves the walker clean — also when it raised; hence any history "
                    "answers call by call like fresh walkers. Instantiated for Substituter, FreeVarsOracle, FreeVarsExtractor of one "
                    "environment (interleaved calls) and for create_node's register-after-type-check order; the code as found is "
-                   "refuted on kernel-checked witnesses. Model and code are tied by differential runs of random histories on one "
-                   "real Environment (answers and walker state), and every call is compared with the same call on a fresh "
-                   "Environment."),
+                   "refuted on kernel-checked witnesses. Props/C14Ctx.lean extends the statement to calls whose arguments are "
+                   "references to MUTABLE objects (entry method + instance fields + a world mutated between calls): every call is "
+                   "answered from the expression and the world at that moment, like a brand-new instance, provided the entry method "
+                   "re-derives what the node functions read (`Resets`); proved for ExpressionQuantifiersRemover over two problems "
+                   "whose objects grow, together with the shared walkers of the environment; refuted for a per-instance objects "
+                   "table kept while the same problem is passed and for a kept cache that reads the context. Model and code are tied "
+                   "by differential runs of random histories (calls and caller mutations) on one real Environment (answers and walker "
+                   "state); every call is compared with the same call on a fresh Environment in which only the mutations were "
+                   "replayed, and with a brand-new walker instance on the same live arguments."),
     "level_note": ("Trusted: Lean kernel; axioms propext, Classical.choice, Quot.sound; Driver.lean + correspondence harness. "
-                   "Simplifier/TypeChecker/quantifier-remover node functions are not modelled (generic theorem + fresh-environment "
-                   "oracle); which constructions are ill-typed is measured, not modelled (C15)."),
+                   "Simplifier/TypeChecker/QuantifierSimplifier/StateEvaluator/extractor node functions are not modelled (generic "
+                   "theorems + the two oracles); which constructions are ill-typed is measured, not modelled (C15)."),
     "technique": "Lean 4 proof of a state-machine invariant + refinement to the pure recursion; model/code correspondence on histories",
     "design_ref": "DESIGN.md §5 C14",
 }
